@@ -14,7 +14,9 @@ RULE = ("case = one history of API calls replayed on ONE shared Dataset and ONE 
         "non-trivial = histories of >= 2 calls on datasets with >= 2 elements")
 EXHAUSTIVE = {"quick": "all 4368 non-empty histories of <= 3 calls, each on a (dataset, scheme) drawn from a pool of 24",
               "thorough": "all histories x 4 (dataset, scheme) pools + 2000 random histories of 8 calls"}
-ASSUMPTIONS = ["KwikSort is excluded from the repeatability clauses (random), not from the no-mutation clause",
+ASSUMPTIONS = ["within a session the algorithm OBJECTS are shared too (one instance per kind); in half of the sessions each "
+               "shared instance first serves another dataset and its score is read, the fresh-copy twin uses fresh instances",
+               "KwikSort is excluded from the repeatability clauses (random), not from the no-mutation clause",
                "the random generator is re-seeded identically before a call on the shared objects and on the fresh copies",
                "ExactAlgorithm answers through the free solver (no CPLEX in the sandbox)"]
 
@@ -53,7 +55,8 @@ def _cases(rng, reps, pool_size):
         pl = pool(rng, pool_size)
         for k, h in enumerate(hs):
             D, s, nmg = pl[(k + rep) % len(pl)]
-            out.append({"D": D, "sch": list(s), "naming": nmg, "calls": h, "seed": rng.randrange(10 ** 6)})
+            out.append({"D": D, "sch": list(s), "naming": nmg, "calls": h, "seed": rng.randrange(10 ** 6),
+                        "warm": (k + rep) % 2})
     return out
 
 
@@ -65,7 +68,8 @@ def _random_long(rng, count):
         D = ac.random_dataset(rng, 6, 5, nmin=2)
         out.append({"D": D, "sch": list(rng.choice([ac.P_UNI1, ac.P_UNI5, ac.P_IND1, ac.P_PSE5, ac.P_EXT])),
                     "naming": rng.choice(["ints", "letters", "collide"]),
-                    "calls": [rng.choice(kinds) for _ in range(8)], "seed": rng.randrange(10 ** 6)})
+                    "calls": [rng.choice(kinds) for _ in range(8)], "seed": rng.randrange(10 ** 6),
+                    "warm": rng.randint(0, 1)})
     return out
 
 
